@@ -55,7 +55,7 @@ PROPS["C06"] = {
 PROPS["C19"] = {
     "scenario": "S-LINK(memory)",
     "level": "exploration",
-    "runs": {"quick": 80000, "thorough": 600000},
+    "runs": {"quick": 80000, "thorough": 60000},
     "crash_clause": None,
     "rule": "one run = one seeded tape: link kind, polling schedule variant, a long traffic history of 20..420 (thorough up to 20000) episodes as in C06 (clean packets incl. 256+/4096-frame ones, damaged packets, abandoned start frames announcing up to 4096 frames; in 4% of the runs over-long 'packets' of up to 8192 frames whose 13th id bit sits in the reserved header bit; in a quarter of the runs a USART/serial device that fails reads hard at aligned positions), 15% of runs clean-only; SUT-domain heap bytes measured after every poll with the returned value dropped first, and the largest single SUT allocation during each poll. Every run is non-trivial (it holds a partial packet between polls or crosses a boundary after a multi-frame packet); distinct = distinct event-log hashes.",
     "state_measure": "abstract state (sampled every 64 polls) = bucketed bytes held above fresh x bucketed announcement in flight x bucketed units in flight",
